@@ -97,6 +97,23 @@ def cases(seed, tier):
             d["dtype"] = "float64"
             d["f_tol"], d["x_tol"], d["rtol"] = None, None, None
         out.append(d)
+    # ---- directed: a far, badly scaled initial guess (|f(y0)| ~ 1e4 .. 1e8) with tight absolute tolerances: whatever the first
+    # residual was, a silent return must meet f_tol at the returned point (no must-be-silent demand from such a start)
+    kf = 0
+    for task in tasks:
+        for method in METHODS[task]:
+            if method in ("gd", "adam"):
+                continue
+            for far in (1e4, 1e7, 1e8):
+                for f_tol in (1e-9, 1e-12):
+                    for rep in range(1 if tier == "quick" else 5):
+                        rng = random.Random(sub_seed(seed, "c03far", kf))
+                        fam = rng.choice([f for f in TASK_FAMILIES[task] if f in ("tanh", "affine", "quad")] or TASK_FAMILIES[task][:1])
+                        out.append({"group": task, "seed": sub_seed(seed, "c03fars", kf), "method": method, "family": fam,
+                                    "n": rng.choice([2, 3, 5]), "batch": rng.choice([0, 1, 2]), "dtype": "float64", "q": rng.choice([0.2, 0.4, 0.6]),
+                                    "y0": "far", "far": far, "f_tol": f_tol, "x_tol": rng.choice([None, 1e-9]), "rtol": None, "maxiter": "ample",
+                                    "ls": rng.choice([True, False]) if method in RF else None, "placement": rng.choice(PLACEMENTS)})
+                        kf += 1
     # ---- directed: exact arithmetic.  (a) dyadic affine maps: newton / matched linearmixing land on the root exactly after one
     # step that is much larger than x_tol; (b) constant maps: one application of the map is the fixed point; (c) y0 is a bitwise root
     k = 0
@@ -166,6 +183,8 @@ def run_case(desc):
     elif mode == "near":
         pert = torch.randn(prob.yshape, dtype=dt, generator=tgen)
         y0 = (yref + (1e-7 if rdt == torch.float64 else 1e-3) * pert.to(yref.dtype)).to(dt)
+    elif mode == "far":
+        y0 = float(desc["far"]) * torch.randn(prob.yshape, dtype=dt, generator=tgen)
     elif mode == "int":
         y0 = torch.randint(-6, 7, prob.yshape, generator=tgen).to(dt)
         y0.reshape(-1)[0] = 9.0
@@ -338,6 +357,9 @@ def run_case(desc):
         must = must and mode != "near"
     if mode == "ref" and desc["rtol"] == "f_rtol":
         must = False         # f_rtol is relative to |f(y0)|, which is at rounding level here
+    if mode == "far":
+        must = False         # no convergence demand from a start 1e4..1e8 away; only "silent => the returned point meets the test"
+        obs.count("far_start_cases")
     if must:
         obs.count("must_silent_cases")
         obs.check(not warned, "not_silent:%s:%s:%s" % (cfg, family, "y0root" if y0_is_root else mode),
